@@ -353,6 +353,8 @@ class CFGBuilder(AstVisitor[BB | None]):
             raise GuppyError(UnsupportedError(span, "`as` expression", singular=True))
 
         e = node.context_expr
+        if isinstance(e, ast.Call) and e.keywords:
+            raise GuppyError(UnsupportedError(e.keywords[0], "Keyword arguments"))
         modifier: Modifier
         match e:
             case ast.Name(id="dagger"):
@@ -699,6 +701,8 @@ def is_comptime_expression(node: ast.AST) -> ComptimeExpr | None:
         and isinstance(node.func, ast.Name)
         and node.func.id in ("py", "comptime")
     ):
+        if node.keywords:
+            raise GuppyError(UnsupportedError(node.keywords[0], "Keyword arguments"))
         match node.args:
             case []:
                 raise GuppyError(EmptyComptimeExprError(node))
